@@ -11,7 +11,7 @@ import operator
 import z3
 
 from . import source
-from .values import ONE, ExcVal, NamedTuple, Obj, Space, SubSpace, SymRaise, Undecided, V, ite, to_term
+from .values import ONE, ExcVal, NamedTuple, Obj, Space, SubSpace, SymRaise, Undecided, V, ite, tid, to_term
 
 
 class Obligation:
@@ -1016,9 +1016,9 @@ class SymKey:
         if isinstance(k, tuple):
             return tuple(SymKey._sig(x) for x in k)
         if isinstance(k, V):
-            return ("z3", z3.simplify(k.t).get_id())
+            return ("z3", tid(z3.simplify(k.t)))
         if isinstance(getattr(k, "v", None), V):
-            return ("z3", z3.simplify(k.v.t).get_id())
+            return ("z3", tid(z3.simplify(k.v.t)))
         return ("py", k)
 
     def __hash__(self):
